@@ -379,7 +379,9 @@ var chainProp = vh.Define("C17", "chain-roundtrip", func(c ChainCase, r *vh.R) {
 		return
 	}
 	// -- read back
-	got, rerr := certurl.ReadCertChain(gen.Source(out, sourceMode(out)))
+	csrc := gen.Source(out, sourceMode(out))
+	got, rerr := certurl.ReadCertChain(csrc)
+	gen.Recycle(csrc)
 	if rerr != nil {
 		r.Failf("written-chain-not-readable", "Write accepted the chain (elems %+v) but ReadCertChain rejects its output: %v", c.Elems, rerr)
 		return
@@ -753,7 +755,9 @@ var craftProp = vh.Define("C17", "read-crafted", func(c CraftCase, r *vh.R) {
 	canonical := refcbor.CheckDeterministic(input, refcbor.Profile{}) == nil
 	mustAccept := len(reasons) == 0 && !dup && extras == 0 && c.Cut == 0 && c.Trailing == 0 && canonical
 
-	got, err := certurl.ReadCertChain(gen.Source(input, sourceMode(input)))
+	isrc := gen.Source(input, sourceMode(input))
+	got, err := certurl.ReadCertChain(isrc)
+	gen.Recycle(isrc)
 
 	if dup {
 		r.Class("duplicate-known-key(unspecified)")
@@ -1267,5 +1271,5 @@ func sourceMode(b []byte) int {
 	if h < 0 {
 		h = -h
 	}
-	return []int{0, 0, 0, 0, 1, 2, 7, 512, 4096, 4097}[h%10]
+	return []int{0, 0, gen.SourceBuffer, gen.SourceBuffer, 1, 2, 7, 512, 4096, 4097}[h%10]
 }
